@@ -1,4 +1,8 @@
+import FrappyModel.Generated.C04
 import FrappyModel.Generated.C20
+import FrappyModel.Node.Dispatch
 import FrappyModel.Node.Logging
+import FrappyModel.Node.Param
 import FrappyModel.Small.Rotate
+import FrappyModel.Spec.C04
 import FrappyModel.Spec.C20
